@@ -574,7 +574,16 @@ class _InlineCM(ast.NodeTransformer):
             bind = {}
         if len(params) != len(c.args):
             return None
-        if any(isinstance(x, (ast.Return, ast.Break, ast.Continue, ast.Yield, ast.YieldFrom)) for s in node.body for x in ast.walk(s)):
+        # `with cm(..): ..; return e` (the return the last statement of the block, no other exit in it): when the block
+        # returns, the generator is resumed after its yield, so POST runs between evaluating e and returning it
+        tail_ret = None
+        wbody = list(node.body)
+        if wbody and isinstance(wbody[-1], ast.Return) and wbody[-1].value is not None and not any(isinstance(x, (ast.Return, ast.Break, ast.Continue, ast.Yield, ast.YieldFrom)) for s in wbody[:-1] for x in ast.walk(s)) and not any(isinstance(x, (ast.Yield, ast.YieldFrom)) for x in ast.walk(wbody[-1])):
+            self.n += 1
+            tmpr = f"_cm_result_{self.n}"
+            tail_ret = ast.copy_location(ast.Return(value=ast.copy_location(ast.Name(id=tmpr, ctx=ast.Load()), wbody[-1])), wbody[-1])
+            wbody[-1] = ast.copy_location(ast.Assign(targets=[ast.copy_location(ast.Name(id=tmpr, ctx=ast.Store()), wbody[-1])], value=wbody[-1].value, type_comment=None), wbody[-1])
+        elif any(isinstance(x, (ast.Return, ast.Break, ast.Continue, ast.Yield, ast.YieldFrom)) for s in node.body for x in ast.walk(s)):
             return None
         pre_stmts: list = []
         for p_, a_ in zip(params, c.args):
@@ -613,7 +622,7 @@ class _InlineCM(ast.NodeTransformer):
                 out.append(c_)
             return out
 
-        return pre_stmts + inst(body[:yi]) + list(node.body) + inst(body[yi + 1:])
+        return pre_stmts + inst(body[:yi]) + wbody + inst(body[yi + 1:]) + ([tail_ret] if tail_ret is not None else [])
 
     def generic_visit(self, node):
         super().generic_visit(node)
